@@ -5,14 +5,16 @@ META = dict(
     engine="Producer",
     technique="spec/Producer.tla with the idempotent path (transaction manager, retryBatch goroutine, broker epoch/sequence/5-batch-window rules) model-checked by TLC (NoDoubleAppend, SuccessInLog); behaviours and fault families replayed on the real idempotent producer against simulated brokers enforcing Kafka's checkSequence rules; TLC validates no_duplicate_append / success_in_log_exactly_once / sequence_contiguous / resend_identical on the recorded traces",
     text='The simulated brokers enforce producer id / epoch / sequence rules (in-window duplicate => success with the original offset, older => DUPLICATE_SEQUENCE_NUMBER, gap => OUT_OF_ORDER, lower epoch => fenced) and log every batch with pid, epoch, first sequence and ids. TLC checks on each recorded execution that no id is appended twice, every success is in the log exactly once, batches of one epoch are sequence-contiguous and a resent batch is identical. Faults: retriable before/after append, ack lost, drops, silence, leader move, fatal on the other partition, budget exhaustion; fresh input injected into the retry window through hook gates.',
-    note='valid idempotent configurations only (MaxOpenRequests=1, acks=all, Retry.Max>=1, >=0.11); known finding F-C05-idem-fault-resend covers the connection-failure / epoch-bump-with-in-flight family, so in that family only other clauses can alarm; bounded model',
+    note='conducted replay: TLC behaviours in hook normal form (every internal action recorded) are followed step by step by the real goroutines, parked at the hook points by a conductor that fails open (followed/diverged counts in the evidence); valid idempotent configurations only (MaxOpenRequests=1, acks=all, Retry.Max>=1, >=0.11); known finding F-C05-idem-fault-resend covers the connection-failure / epoch-bump-with-in-flight family, so in that family only other clauses can alarm; bounded model',
     design_ref="6/C05",
 )
 
 
 def run(ctx):
     n = 100 if ctx.tier == "quick" else 6000
-    fams = [("gen", "gen.idem", n), ("gen", "gen.idem1", n), lambda: pc.family_faults(True, ctx.seed), lambda: pc.family_gates(True), pc.family_idem_clean, lambda: pc.family_resubmit(True), lambda: pc.family_error_codes(True),
+    nc = 40 if ctx.tier == "quick" else 400     # conducted replay: behaviours per model instance
+    fams = [("conduct", "conduct.idem", nc), ("conduct", "conduct.idem1", nc),
+            ("gen", "gen.idem", n), ("gen", "gen.idem1", n), lambda: pc.family_faults(True, ctx.seed), lambda: pc.family_gates(True), pc.family_idem_clean, lambda: pc.family_resubmit(True), lambda: pc.family_error_codes(True),
             pc.family_idem_extra]
     mc = ["MCProducer.idem.cfg"] if ctx.tier == "quick" else ["MCProducer.idem.cfg", "MCProducer.liveidem.cfg"]
     # the model itself exhibits the known duplicate-after-connection-loss finding: that run must violate NoDoubleAppend
